@@ -14,8 +14,8 @@ CLAUSES = {
     "output-lonlat": "lon/lat in every output record are the bilinear interpolation of the grid coordinates at the X, Y of the same record",
 }
 BOUNDS = {
-    "quick": "sample2D: 3x3 and 4x3 fields, 2 points, all values/masks/positions/substitute values symbolic; bilin_inv: symbolic affine coefficients on a 4x5 array (maxiter=1); round trip: 4 concrete affine grids (axis-aligned, rotated, sheared, axis-swapped) x 2 subgrids on a 7x6 grid, every position of the valid region symbolic, default maxiter",
-    "thorough": "12 affine grids incl. anisotropic and fine (0.01 deg) ones, 3 subgrids",
+    "quick": "sample2D: 3x3 and 4x3 fields, 2 points, all values/masks/positions/substitute values symbolic; bilin_inv: symbolic affine coefficients on a 4x5 array (maxiter=1); round trip: 4 concrete affine grids (axis-aligned, rotated, sheared, axis-swapped) x 2 subgrids on a 7x6 grid, every position of the valid region symbolic, default maxiter; round trip on piecewise affine (kinked) grids 9x5 and 5x9, every position symbolic",
+    "thorough": "12 affine grids incl. anisotropic and fine (0.01 deg) ones, 3 subgrids; kinked grids 8x6 and 6x8 as well",
 }
 ASSUMES = ["affine coordinate grids stand for 'rotated' grids; with concrete coefficients every query of the default-maxiter run is linear"]
 OUTSIDE = "convergence of the Newton iteration on genuinely curvilinear (polar-stereographic) grids: iterated rational maps composed with trigonometry are out of reach; not claimed"
@@ -60,6 +60,11 @@ def scenarios(tier):
     for k, (name, _, _) in enumerate(affine_family(tier)):
         for sub in subs:
             out.append(dict(name=f"roundtrip-{name}-sub{'full' if sub is None else '_'.join(map(str, sub))}", fn="roundtrip", params=dict(fam=k, sub=sub, tier=tier), cost=10))
+    # piecewise affine ("kinked") coordinate grids, wide and tall: the interpolant differs from cell to cell, so the cell the iteration
+    # works in matters (on an affine grid every cell gives the same inverse); each cell is affine, so the exact iteration lands on the
+    # point as soon as it works in the right cell and every query stays linear
+    for shape in ((9, 5), (5, 9)) + (() if q else ((8, 6), (6, 8))):
+        out.append(dict(name=f"roundtrip-kinked-{shape[0]}x{shape[1]}", fn="roundtrip", params=dict(kinked=True, shape=shape, sub=None, tier=tier), cost=15))
     for k in ((1, 2) if q else (1, 2, 4, 7)):
         out.append(dict(name=f"model-lonlat-{affine_family(tier)[k][0]}", fn="model_lonlat", params=dict(fam=k, tier=tier), cost=10))
         if k == 1:
@@ -244,24 +249,57 @@ def newton(W, p):
 def roundtrip(W, p):
     from harness.trkcommon import in_valid
 
-    name, (l0, la, lb), (t0, ta, tb) = affine_family(p["tier"])[p["fam"]]
     roms = W.load("ladim.ROMS")
     tmp = W.scratch()
-    lon = [[_q(W, l0 + la * i + lb * j) for i in range(L)] for j in range(M)]
-    lat = [[_q(W, t0 + ta * i + tb * j) for i in range(L)] for j in range(M)]
-    ones = [[1] * L for _ in range(M)]
-    gs = romsfile.grid_vars(L, M, 2, h=[[100] * L for _ in range(M)], mask=ones, pm=[[W.frac(1, 800)] * L for _ in range(M)], pn=[[W.frac(1, 800)] * L for _ in range(M)], lon=lon, lat=lat)
+    if p.get("kinked"):
+        Lk, Mk = p["shape"]
+        name = f"kinked-{Lk}x{Mk}"
+        ki, kj = Lk - 3, Mk - 3  # kinks two cells before the far edge of either axis
+
+        def flon(i, j):
+            return 4 + 2 * i + ((i - ki) if i > ki else 0) + W.frac(1, 10) * j
+
+        def flat(i, j):
+            return 60 + W.frac(1, 4) * j + (W.frac(1, 4) * (j - kj) if j > kj else 0) - W.frac(1, 20) * i
+    else:
+        Lk, Mk = L, M
+        name, (l0, la, lb), (t0, ta, tb) = affine_family(p["tier"])[p["fam"]]
+
+        def flon(i, j):
+            return _q(W, l0) + _q(W, la) * i + _q(W, lb) * j
+
+        def flat(i, j):
+            return _q(W, t0) + _q(W, ta) * i + _q(W, tb) * j
+    lon = [[flon(i, j) for i in range(Lk)] for j in range(Mk)]
+    lat = [[flat(i, j) for i in range(Lk)] for j in range(Mk)]
+    ones = [[1] * Lk for _ in range(Mk)]
+    gs = romsfile.grid_vars(Lk, Mk, 2, h=[[100] * Lk for _ in range(Mk)], mask=ones, pm=[[W.frac(1, 800)] * Lk for _ in range(Mk)], pn=[[W.frac(1, 800)] * Lk for _ in range(Mk)], lon=lon, lat=lat)
     romsfile.write(W, tmp / "grid.nc", gs)
     grid = roms.Grid(filename=str(tmp / "grid.nc"), subgrid=p["sub"])
     x, y = W.real("x"), W.real("y")
     W.assume(in_valid(W, grid, x, y), "position in the valid region")
+
+    def bil(fn, xx, yy):
+        # the bilinear interpolant of the node function fn at (xx, yy): cell by case split (piecewise affine grids), closed form otherwise
+        if not p.get("kinked"):
+            return fn(xx, yy)
+        if W.symbolic:
+            i, j = W.idx(W.core.SN.real(xx).floor()), W.idx(W.core.SN.real(yy).floor())
+        else:
+            import math
+
+            i, j = math.floor(xx), math.floor(yy)
+        i, j = min(max(i, 0), Lk - 2), min(max(j, 0), Mk - 2)
+        pp, qq = xx - i, yy - j
+        return (1 - pp) * (1 - qq) * fn(i, j) + pp * (1 - qq) * fn(i + 1, j) + (1 - pp) * qq * fn(i, j + 1) + pp * qq * fn(i + 1, j + 1)
+
     lo, la_ = grid.xy2ll(W.arr([x], "f"), W.arr([y], "f"))
     lo0, la0 = W.tolist(lo)[0], W.tolist(la_)[0]
-    W.prove(W.all([W.eq(lo0, _q(W, l0) + _q(W, la) * x + _q(W, lb) * y), W.eq(la0, _q(W, t0) + _q(W, ta) * x + _q(W, tb) * y)]), "bilinear-exact", dict(grid=name, note="xy2ll on an affine grid"))
+    W.prove(W.all([W.eq(lo0, bil(flon, x, y)), W.eq(la0, bil(flat, x, y))]), "bilinear-exact", dict(grid=name, note="xy2ll on an affine or piecewise affine grid"))
     X2, Y2 = grid.ll2xy(lo, la_)
     x2, y2 = W.tolist(X2)[0], W.tolist(Y2)[0]
-    lon2 = _q(W, l0) + _q(W, la) * x2 + _q(W, lb) * y2
-    lat2 = _q(W, t0) + _q(W, ta) * x2 + _q(W, tb) * y2
+    lon2 = bil(flon, x2, y2)
+    lat2 = bil(flat, x2, y2)
     exact = W.all([W.eq(x2, x), W.eq(y2, y)])
     within = W.lt((lon2 - lo0) * (lon2 - lo0) + (lat2 - la0) * (lat2 - la0), W.frac(1, 10 ** 7))
     W.prove(W.any([exact, within]), "roundtrip", dict(grid=name, sub=p["sub"]))
